@@ -64,8 +64,13 @@ func startAgent(bin, cfg, dir string, listeners []string, extra ...string) (*age
 	os.WriteFile(lc, []byte(y.String()), 0600) //nolint:errcheck
 	args := append([]string{"--store", cfg}, extra...)
 	args = append(args, "run", "--listener", lc)
-	a.cmd = exec.Command(bin, args...)
-	a.cmd.SysProcAttr = &syscall.SysProcAttr{Pdeathsig: syscall.SIGKILL}
+	if len(agentWrap) > 0 {
+		args = append(append(append([]string{}, agentWrap[1:]...), bin), args...)
+		a.cmd = exec.Command(agentWrap[0], args...)
+	} else {
+		a.cmd = exec.Command(bin, args...)
+	}
+	a.cmd.SysProcAttr = &syscall.SysProcAttr{Pdeathsig: syscall.SIGKILL, Setpgid: true}
 	stdout, _ := a.cmd.StdoutPipe()
 	a.cmd.Stderr = a.out
 	if err := a.cmd.Start(); err != nil {
@@ -106,8 +111,9 @@ func startAgent(bin, cfg, dir string, listeners []string, extra ...string) (*age
 
 func (a *agentProc) Stop() {
 	if a.cmd != nil && a.cmd.Process != nil {
-		a.cmd.Process.Kill() //nolint:errcheck
-		a.cmd.Wait()         //nolint:errcheck
+		syscall.Kill(-a.cmd.Process.Pid, syscall.SIGKILL) //nolint:errcheck
+		a.cmd.Process.Kill()                              //nolint:errcheck
+		a.cmd.Wait()                                      //nolint:errcheck
 	}
 }
 
